@@ -230,11 +230,15 @@ from . import c03_neurons as _c03, c04_synapses as _c04  # noqa: E402,F401
 for _cd in list(_REG.get("C04", [])):
     if _cd.name.endswith(".forward") and not any(x.name == _cd.name for x in _REG.get(P, [])):
         contract(P, _cd.name, list(_cd.targets), min_obligations=_cd.min_obligations)(_cd.fn)
+# RecurrentSerial does not use what its neurons RETURN for the lateral and feedback paths but their `spike` attribute: that
+# the attribute equals the spikes of the most recent step is a clause of the C03 step contracts (`*.forward`), which are
+# therefore obligations of this property too (known finding D22 at refrac_t = 0 included - see known_findings.txt)
 for _cd in list(_REG.get("C03", [])):
-    if _cd.name.endswith(".clear") and not any(x.name == _cd.name for x in _REG.get(P, [])):
+    if (_cd.name.endswith(".clear") or _cd.name.endswith(".forward")) and not any(x.name == _cd.name for x in _REG.get(P, [])):
         contract(P, _cd.name, list(_cd.targets), min_obligations=_cd.min_obligations)(_cd.fn)
 
 MUTANTS = [
+    dict(file="inferno/neural/neurons/mixins.py", func="SpikeRefractoryMixin.spike", old="        return self.refrac == getattr(self, self.__absrefrac_attr)", new="        return self.refrac > 0", contracts=["LIF.forward"], name="seed C17f / C03e: the spike attribute means 'still refractory'"),
     dict(file=NW, func="Biclique.__init__", old='                        list(tensors.values()), "s ... -> ...", combine.lower()', new='                        torch.cat(list(tensors.values())), "s ... -> ...", combine.lower()', contracts=["Biclique"], name="seed C11e: connection outputs concatenated along the batch axis before the combine reduction"),
     dict(file="inferno/neural/synapses/expcurrent.py", func="DoubleExponentialCurrent.clear", old="        self.neg_current_.reset(0.0)", new="        self.pos_current_.reset(0.0)", contracts=["DoubleExponentialCurrent.forward"], name="seed C17e: clear never resets the rise component"),
     dict(file="inferno/neural/base.py", func="Connection.clear", old="        self.synapse.clear(**kwargs)", new="        self.synapse.clear()", contracts=["Connection.clear"]),
